@@ -23,6 +23,26 @@ type FS struct {
 	pfs.FileSystem
 	mu   sync.Mutex
 	hook func(Event)
+	fail func(Event) error
+}
+
+// SetFail installs (or, with nil, removes) a fault injector: when it returns a non-nil error
+// for a call, the call is not made and fails with that error (OpenFile and the data calls of
+// files opened through the wrapper).
+func (h *FS) SetFail(f func(Event) error) {
+	h.mu.Lock()
+	h.fail = f
+	h.mu.Unlock()
+}
+
+func (h *FS) failure(e Event) error {
+	h.mu.Lock()
+	f := h.fail
+	h.mu.Unlock()
+	if f == nil {
+		return nil
+	}
+	return f(e)
 }
 
 func New(base pfs.FileSystem) *FS { return &FS{FileSystem: base} }
@@ -45,6 +65,9 @@ func (h *FS) call(e Event) {
 
 func (h *FS) OpenFile(name string, flag int, perm os.FileMode) (pfs.File, error) {
 	h.call(Event{Op: "open", Name: name, Flag: flag})
+	if err := h.failure(Event{Op: "open", Name: name, Flag: flag}); err != nil {
+		return nil, err
+	}
 	f, err := h.FileSystem.OpenFile(name, flag, perm)
 	if err != nil {
 		return nil, err
@@ -80,16 +103,25 @@ func (f *file) Write(p []byte) (int, error) {
 
 func (f *file) WriteAt(p []byte, off int64) (int, error) {
 	f.h.call(Event{Op: "writeat", Name: f.name})
+	if err := f.h.failure(Event{Op: "writeat", Name: f.name}); err != nil {
+		return 0, err
+	}
 	return f.File.WriteAt(p, off)
 }
 
 func (f *file) Truncate(size int64) error {
 	f.h.call(Event{Op: "truncate", Name: f.name})
+	if err := f.h.failure(Event{Op: "truncate", Name: f.name}); err != nil {
+		return err
+	}
 	return f.File.Truncate(size)
 }
 
 func (f *file) Sync() error {
 	f.h.call(Event{Op: "sync", Name: f.name})
+	if err := f.h.failure(Event{Op: "sync", Name: f.name}); err != nil {
+		return err
+	}
 	return f.File.Sync()
 }
 
@@ -100,11 +132,17 @@ func (f *file) Close() error {
 
 func (f *file) ReadAt(p []byte, off int64) (int, error) {
 	f.h.call(Event{Op: "readat", Name: f.name})
+	if err := f.h.failure(Event{Op: "readat", Name: f.name}); err != nil {
+		return 0, err
+	}
 	return f.File.ReadAt(p, off)
 }
 
 func (f *file) Slice(start int64, end int64) ([]byte, error) {
 	f.h.call(Event{Op: "slice", Name: f.name})
+	if err := f.h.failure(Event{Op: "slice", Name: f.name}); err != nil {
+		return nil, err
+	}
 	return f.File.Slice(start, end)
 }
 
